@@ -52,7 +52,7 @@ type Scenario struct {
 type E1Replay struct {
 	Scenario string `json:"scenario"`
 	Schedule []int  `json:"schedule"`
-	Bound    int    `json:"preemption_bound"`
+	Bound    int    `json:"deviation_bound"`
 }
 
 func (sc *Scenario) runOnce(s vsched.Strategy) (*vsched.Result, string, string, string) {
@@ -162,11 +162,11 @@ func (sc *Scenario) Explore(deadline time.Time, r *JobResult) {
 		r.Bounds = map[string]any{}
 	}
 	r.Bounds[sc.Name] = map[string]any{"schedules": st.Executions, "decisions": st.Points, "hb_states": st.States, "pruned": st.Pruned,
-		"preemption_bound_completed": st.BoundDone, "all_interleavings": st.Unbounded, "horizon": sc.Horizon,
-		"distinct_outcomes": len(st.Outcomes), "max_decisions": st.MaxDecisions}
+		"deviation_bound_completed": st.BoundDone, "all_interleavings": st.Unbounded, "horizon": sc.Horizon,
+		"distinct_outcomes": len(st.Outcomes), "max_decisions": st.MaxDecisions, "first_schedule_decisions": st.FirstTrace}
 	if st.TimedOut || !st.Complete {
 		r.Exhaustive = false
-		r.Notes = append(r.Notes, fmt.Sprintf("%s: deadline reached; preemption bound fully covered: %d", sc.Name, st.BoundDone))
+		r.Notes = append(r.Notes, fmt.Sprintf("%s: deadline reached; deviation bound fully covered: %d", sc.Name, st.BoundDone))
 	}
 	if len(st.Outcomes) <= 1 && st.Executions > 4 && len(st.Violations) == 0 {
 		r.Notes = append(r.Notes, fmt.Sprintf("%s: VACUITY WARNING: %d schedules, one outcome", sc.Name, st.Executions))
